@@ -19,9 +19,9 @@ def e2_run(prop, kernels, tier, seed, cfgs=("sse2", "scalar"), cap=None):
                 for k in kernels:
                     if k.name in redo:
                         k2 = copy.copy(k)
-                        k2.timeout = (k.timeout or cap) * 4
+                        k2.timeout = min((k.timeout or cap) * 4, 300)
                         ks2.append(k2)
-                rs2 = {r["kernel"]: r for r in e2run.run(prop.lower(), cfg, ks2, seed=seed, cap=cap * 4, jobs=4)}
+                rs2 = {r["kernel"]: r for r in e2run.run(prop.lower(), cfg, ks2, seed=seed, cap=min(cap * 4, 300), jobs=4)}
                 rs = [rs2.get(r["kernel"], r) if r["kernel"] in redo else r for r in rs]
         except Exception as e:
             out.append(dict(site=f"e2-build-{cfg}", status="broken", detail=str(e)[:800], cfg=cfg, secs=0))
